@@ -18,7 +18,7 @@ VecQ == {-2, 0, 1, 3}
 EntQ == <<-3, -2, -1, 0, 1, 2, 3>>
 EntS == <<-2, -1, 0, 1, 3>>
 SampleQ == <<0, 24, 10, 8>>
-SampleT == <<0, 120, 40, 30>>
+SampleT == <<0, 60, 30, 20>>
 
 Mix(h) == ((h % 46337) * (h % 46337) + 12345) % 46337      \* stays below 2^31
 Rnd(a, b, c, d) == Mix(Mix((a * 7919) + (b * 10473) + (c * 2731) + (d * 613) + ((Seed % 1000) * 3137)) + (a * 131) + (b * 17) + c)
